@@ -9,7 +9,6 @@ package json
 import (
 	"errors"
 	"fmt"
-	"io"
 	"reflect"
 	"sync"
 
@@ -305,8 +304,11 @@ func UnmarshalFromFunc[T any](fn func(*jsontext.Decoder, T) error) *Unmarshalers
 		fnc: func(dec *jsontext.Decoder, va addressableValue, uo *jsonopts.Struct) error {
 			xd := export.Decoder(dec)
 			prevDepth, prevLength := xd.Tokens.DepthLength()
-			if prevDepth == 1 && xd.AtEOF() {
-				return io.EOF // check EOF early to avoid fn reporting an EOF
+			if prevDepth == 1 {
+				// Check EOF early to avoid fn reporting an EOF.
+				if err := xd.AtEOFOrError(); err != nil {
+					return err
+				}
 			}
 			withinOuterCall := xd.Flags.Get(jsonflags.WithinArshalCall)
 			xd.Flags.Set(jsonflags.WithinArshalCall | 1)
